@@ -3,6 +3,7 @@ import builtins
 import z3
 from .core import Ctx, SB, Unsupported, StaleContract, PathEnd, QScope, tobool, cur, vcx_and, vcx_or, vcx_not
 from .values import SI, SF, it, py_max2, py_min2, ite, I
+from .dicts import v_dict
 
 
 def _symbolic(x):
@@ -234,5 +235,5 @@ def base_inject(specs=None):
 def builtin_shims():
     return {
         "max": v_max, "min": v_min, "abs": v_abs, "float": v_float, "int": v_int, "bool": v_bool,
-        "len": v_len, "zip": v_zip, "range": v_range,
+        "len": v_len, "zip": v_zip, "range": v_range, "dict": v_dict,
     }
